@@ -9,6 +9,9 @@ Rules (exact algebra on extracted formula tables; formal differentiation by symp
       zero cross blocks, and the nine orientation entries (atan2 / asin derivative coefficients, rows of A, accessor of axis k in column k)
   G4  least-squares covariance = A (J^T J)^-1 A^T * variance for a diagonal preconditioner A (checked on a representative 3x3 symbolic
       instance of the dynamic-size matrices), using the inverse stored by the last estimate
+  G5  that stored inverse is (J^T J)^-1 of the rows of the current problem: the solver rules of C07 (row slicing L1, normal equations L2,
+      solver paths and every store of inverseJtJ_ L3, weights/preconditioner L4-L6) are evaluated here under this rule name - a stale row
+      or a (J J^T)^-1 in the store makes the reported covariance wrong while every formula of G4 still matches
 Known findings (genuine defects recorded, not repaired: the suite pins the wrong numbers, see known_findings.json): the identity-seeded
 derivative tables (G1) and the position block / pitch coefficient / yaw row of the Pose3D Jacobian (G3).
 Not decided: numerical agreement with finite differences."""
@@ -40,6 +43,33 @@ def run(fx, R, tier):
     check_tables(fx, R)
     check_pose(fx, R)
     check_ls_covariance(fx, R)
+    from . import C07
+    C07.run(fx, _Remap(R), tier)
+
+
+class _Remap:
+    """Forwards C07's verdicts under rule G5."""
+
+    def __init__(self, R):
+        self.R = R
+
+    def holds(self, rule, inst, *a, **k):
+        self.R.holds('G5', '%s[%s]' % (inst, rule), *a, **k)
+
+    def violated(self, rule, inst, *a, **k):
+        self.R.violated('G5', '%s[%s]' % (inst, rule), *a, **k)
+
+    def undecided(self, rule, inst, *a, **k):
+        self.R.undecided('G5', '%s[%s]' % (inst, rule), *a, **k)
+
+    def check(self, cond, rule, inst, *a, **k):
+        return self.R.check(cond, 'G5', '%s[%s]' % (inst, rule), *a, **k)
+
+    def used(self, *f):
+        self.R.used(*f)
+
+    def floor(self, rule, n):
+        pass
 
 
 # ---------------------------------------------------------------------------------------------
